@@ -312,6 +312,17 @@ async def _interp(ctx, ev, acts, inv, rec: Rec, step_name: str):
             _, upto, exc_name = act
             if upto is None or inv["attempt"] < upto:
                 raise ge.EXC[exc_name](f"{step_name}:{_uid_of(ev)}:{inv['attempt']}")
+        elif k == "fail_gen":
+            _, G, exc_name = act
+            g = (ev.get("gen") or 0) if hasattr(ev, "get") else 0
+            if G is None or g < G:
+                raise ge.EXC[exc_name](f"{step_name}:{_uid_of(ev)}:{inv['attempt']}")
+        elif k == "resend_failed":
+            # inside a @catch_error handler: re-emit the event whose processing failed (same lineage, next generation)
+            orig = ev.input_event
+            e = rec.mk(type(orig).__name__, "send", by=by, parent=_uid_of(orig), gen=(orig.get("gen") or 0) + 1)
+            inv["sent"].append(_uid_of(e))
+            ctx.send_event(e)
         elif k == "collect":
             _, tnames, buf = act
             got = ctx.collect_events(ev, [ge.POOL[t] for t in tnames], buf)
